@@ -414,6 +414,19 @@ def _specs(vd, rng, n=None):
     yield "cross_val_score_vector_delayed", lambda a: [float(s.compute()) for s in vd.cross_val_score(vd.Vector([vd.Trend(1), vd.Trend(1)]), a["c"], a["d"], a["w"], delayed=True, scoring="neg_mean_squared_error")], {"c": vcoords, "d": vdata, "w": vweights}
     yield "BlockKFold.split", lambda a: list(vd.BlockKFold(spacing=sp, n_splits=2, shuffle=True, random_state=seed).split(a["X"])), {"X": X}
     yield "BlockShuffleSplit.split", lambda a: list(vd.BlockShuffleSplit(spacing=sp, n_splits=2, test_size=0.3, random_state=seed).split(a["X"])), {"X": X}
+    # the extremes of documented parameter domains, each with a fixed seed: fast paths taken only there must stay repeatable
+    yield "BlockShuffleSplit.split_balancing_1", lambda a: list(vd.BlockShuffleSplit(spacing=sp, n_splits=3, test_size=0.3, balancing=1, random_state=seed).split(a["X"])), {"X": X}
+    yield "BlockShuffleSplit.split_balancing_2_int_test_size", lambda a: list(vd.BlockShuffleSplit(shape=(3, 3), n_splits=2, test_size=2, balancing=2, random_state=seed).split(a["X"])), {"X": X}
+    yield "BlockKFold.split_two_folds_unshuffled", lambda a: list(vd.BlockKFold(shape=(2, 2), n_splits=2).split(a["X"])), {"X": X}
+    yield "train_test_split_blocked_balancing_1", lambda a: vd.train_test_split(a["c"], a["d"], spacing=sp, test_size=0.3, random_state=seed, balancing=1), {"c": (east, north), "d": data}
+    yield "KNeighbors.k_equals_n", lambda a: vd.KNeighbors(k=east.size, reduction=np.median).fit(a["c"], a["d"]).predict(a["c"]), {"c": (east, north), "d": data}
+    yield "Trend.degree_0_weighted", lambda a: vd.Trend(0).fit(a["c"], a["d"], a["w"]).predict(a["c"]), {"c": (east, north), "d": data, "w": weights}
+    yield "VectorSpline2D.poisson_extremes", lambda a: [vd.VectorSpline2D(poisson=p, mindist=span, damping=1e-2).fit(a["c"], a["d"]).predict(a["c"]) for p in (-1, 1.0)], {"c": vcoords, "d": vdata}
+    # calls that rely on documented defaults: BaseGridder.scatter is seeded by default (random_state=0), so two identical calls agree
+    for gname, gmake in (("Trend", lambda: vd.Trend(1)), ("KNeighbors", lambda: vd.KNeighbors()), ("Spline", lambda: vd.Spline(damping=1e-3)),
+                         ("Chain", lambda: vd.Chain([("t", vd.Trend(1)), ("k", vd.KNeighbors())]))):
+        yield gname + ".scatter_default_seed", (lambda f: lambda a: (lambda est: (est.scatter(size=11), est.scatter(region=region, size=7, extra_coords=a["x"])))(f().fit(a["c"], a["d"])))(gmake), {"c": (east, north), "d": data, "x": np.array([3.0])}
+    yield "CheckerBoard.scatter_default_seed", lambda a: (vd.synthetic.CheckerBoard(region=a["region"]).scatter(size=9), vd.synthetic.CheckerBoard(region=a["region"]).scatter()), {"region": np.array(region)}
     yield "BlockReduce.filter", lambda a: vd.BlockReduce(np.median, spacing=sp).filter(a["c"], a["d"]), {"c": (east, north), "d": data}
     yield "BlockReduce.filter_weighted", lambda a: vd.BlockReduce(np.average, spacing=sp, center_coordinates=True).filter(a["c"], a["d"], a["w"]), {"c": (east, north), "d": data, "w": weights}
     yield "BlockMean.filter", lambda a: vd.BlockMean(spacing=sp).filter(a["c"], a["d"]), {"c": (east, north), "d": data}
